@@ -81,7 +81,10 @@ def run(ctx):
                               "invalid tracking mode %s" % cs["track"].get(i))
 
     # ---- R6.2 ----------------------------------------------------------------
-    tic = prog.fn("track_th_input_chan", "src/emu/track.c")
+    # entered through the module's public function (one track, one channel): independent of how track.c
+    # splits the work among its static helpers
+    tic = prog.fn("track_connect_thread", "src/emu/track.c")
+    TRK, INP0 = PTR("TR", (0,)), PTR("INP", (0,))
     for mode, want in ((ANY, None), (RUN, "thread_select_running"), (ACT, "thread_select_active")):
         calls = []
 
@@ -90,25 +93,26 @@ def run(ctx):
                 calls.append((name, tuple(args)))
                 return [(INT(0), {})]
             return s
-        ex = absint.Explorer(prog, effects=eff, summaries={"track_set_select": mk("select"), "track_set_input": mk("input")})
-        outs = ex.run(tic, [PTR("TR"), PTR("SEL"), PTR("INP")], {("TR", F("track", "mode")): INT(mode)})
+        ex = absint.Explorer(prog, effects=eff, loop_bound=3,
+                             summaries={"track_set_select": mk("select"), "track_set_input": mk("input")})
+        outs = ex.run(tic, [TRK, INP0, PTR("SEL"), INT(1)], {("TR", (0,) + F("track", "mode")): INT(mode)})
         acc = [o for o in outs if o.kind == "ret" and o.ret == INT(0)]
-        inst = "track_th_input_chan:mode=%d" % mode
+        inst = "track_connect_thread:mode=%d" % mode
         if want is None:
-            good = bool(acc) and not calls and all(o.store.get(("TR", F("track", "out"))) == PTR("INP") for o in acc)
+            good = bool(acc) and not calls and all(o.store.get(("TR", (0,) + F("track", "out"))) == INP0 for o in acc)
             ctx.check(good, "R6.2", inst, tic.loc(), "TRACK_TH_ANY does not follow the input channel directly")
         else:
             sel = [c for c in calls if c[0] == "select"]
             inp = [c for c in calls if c[0] == "input"]
-            good = bool(acc) and len(sel) >= 1 and all(c[1][0] == PTR("TR") and c[1][1] == PTR("SEL") and
+            good = bool(acc) and len(sel) >= 1 and all(c[1][0] == TRK and c[1][1] == PTR("SEL") and
                                                        c[1][2] == ("fn", want) and c[1][3] == INT(1) for c in sel) \
-                and len(inp) >= 1 and all(c[1] == (PTR("TR"), INT(0), PTR("INP")) for c in inp)
+                and len(inp) >= 1 and all(c[1] == (TRK, INT(0), INP0) for c in inp)
             ctx.check(good, "R6.2", inst, tic.loc(),
                       "mode %d wires %s / %s; expected select=%s, one input" % (mode, sel, inp, want))
-    outs = absint.Explorer(prog, effects=eff).run(tic, [PTR("TR"), PTR("SEL"), PTR("INP")],
-                                                   {("TR", F("track", "mode")): INT(E("TRACK_TH_MAX"))})
+    outs = absint.Explorer(prog, effects=eff, loop_bound=3).run(tic, [TRK, INP0, PTR("SEL"), INT(1)],
+                                                                {("TR", (0,) + F("track", "mode")): INT(E("TRACK_TH_MAX"))})
     ctx.check(not [o for o in outs if o.kind == "ret" and o.ret == INT(0)], "R6.2",
-              "track_th_input_chan:invalid-mode", tic.loc(), "an invalid tracking mode is accepted")
+              "track_connect_thread:invalid-mode", tic.loc(), "an invalid tracking mode is accepted")
     names = [e[0] for e in prog.enums["thread_state"]["enumerators"]]
     VT = {n: E(n) for n in ("VALUE_NULL", "VALUE_INT64")}
     for fname, okset in (("thread_select_running", sp["running"]), ("thread_select_active", sp["active"])):
